@@ -1,6 +1,6 @@
 /* C08 -- channel layer: chan_push / chan_pop / chan_read / chan_set / chan_flush
  * exact iff-contracts on the real src/emu/chan.c, all stack depths 0..512
- * (symbolic n), stack contents observed through one arbitrary cell g_k. */
+ * (symbolic n); the rest of the stack is covered by the write frame. */
 #include "prelude.h"
 #include "value.h"
 _Static_assert(sizeof(struct value) == 16, "struct value has padding: value_is_equal rebinding unsound");
@@ -21,10 +21,37 @@ static int stub_dirty_cb(struct chan *chan, void *arg)
 	return g_cb_ret;
 }
 
-/* ---- spec readers (struct copy, never the direct union path: pitfall 9) ---- */
-static inline int spec_n(struct chan *c) { struct chan_stack *s = &c->data.stack; return s->n; }
-static inline int64_t spec_cell_t(struct chan *c, int k) { struct value v = c->data.stack.values[k]; return v.type; }
-static inline int64_t spec_cell_i(struct chan *c, int k) { struct value v = c->data.stack.values[k]; return v.i; }
+/* ---- spec readers (struct copy, never the direct union path: pitfall 9).
+ * MEASURED: the 512-cell stack lives inside a struct inside a union, so CBMC
+ * flattens it; proving that two reads at DIFFERENT index expressions known to
+ * be equal (values[g_k] vs values[n-1] under g_k == n-1) agree costs 40-190 s
+ * per obligation, while two reads at the SAME expression share their encoding
+ * (< 1 s).  Therefore the innermost cell is always named by the code's own
+ * expression values[n-1] (spec_top_*), and "the rest of the stack is unchanged"
+ * is discharged by the write frame (__CPROVER_assigns: only cell values[n] is
+ * assignable in chan_push, no cell at all in chan_pop) instead of an observer
+ * cell; the frame check covers every cell, every field and the channel name. ---- */
+static inline int spec_n(struct chan *c) { return c->data.stack.n; }
+/* is the innermost open region the value (t,i)?  Two spellings of the same
+ * read, each matching the way the function under proof reads the cell (struct
+ * copy in chan_read/get_value, field access through a pointer in chan_pop), so
+ * that specification and code share one encoding of the 512-way selection. */
+static inline int spec_top_is(struct chan *c, int64_t t, int64_t i) { struct value v = c->data.stack.values[c->data.stack.n - 1]; return v.type == t && v.i == i; }
+static inline int spec_topf_is(struct chan *c, int64_t t, int64_t i) { struct chan_stack *s = &c->data.stack; struct value *v = &s->values[s->n - 1]; return v->type == t && v->i == i; }
+/* is cell k the value (t,i)?  Written as a scan so that every read has a CONSTANT
+ * index (cell j under the guard j == k): reading the freshly written cell with a
+ * symbolic index costs ~100 s, this costs ~1 s.  The loop is ghost code with the
+ * fixed bound MAX_CHAN_STACK, unwound completely (unwinding assertion checked). */
+static inline int spec_cell_is(struct chan *c, int k, int64_t t, int64_t i)
+{
+	for (int j = 0; j < MAX_CHAN_STACK; j++) {
+		if (j == k) {
+			struct value v = c->data.stack.values[j];
+			return v.type == t && v.i == i;
+		}
+	}
+	return 0;
+}
 static inline int64_t spec_single_t(struct chan *c) { struct value v = c->data.value; return v.type; }
 static inline int64_t spec_single_i(struct chan *c) { struct value v = c->data.value; return v.i; }
 static inline int64_t spec_last_t(struct chan *c) { struct value v = c->last_value; return v.type; }
@@ -33,12 +60,13 @@ static inline int64_t spec_last_i(struct chan *c) { struct value v = c->last_val
 /* The channel object is allocated by the harness as a TYPED heap object with
  * arbitrary content (malloc(sizeof(struct chan))): __CPROVER_is_fresh yields a
  * byte-array object on which every symbolic-index read values[n] is a
- * byte-extract at a symbolic offset (measured: chan_read 95 s, push/pop > 240 s). */
-static struct chan *new_chan(void)
-{
-	struct chan *c = malloc(sizeof(struct chan));
-	return c;
-}
+ * byte-extract at a symbolic offset. */
+#define NEW_CHAN(c) struct chan *c = malloc(sizeof(struct chan)); if (c == NULL) return
+/* A wholly nondet `struct value` (anonymous {int64,double} union inside) is read
+ * inconsistently by CBMC (measured: `struct value v; push(c, v); top.i == v.i`
+ * fails spuriously, with v built field by field it holds): build it by fields. */
+long nondet_long(void);
+#define NEW_VALUE(v) struct value v; v.type = nondet_long(); v.i = nondet_long()
 #define CHAN_OBJ(c) ((c) != NULL && __CPROVER_rw_ok((c), sizeof(struct chan)))
 
 /* data-structure invariant: a stack channel holds 0..512 values */
@@ -47,8 +75,6 @@ static struct chan *new_chan(void)
 
 /* ghosts bound in requires (enforce-only contracts) */
 int g_n;                    /* stack depth in the pre-state */
-int g_k;                    /* the observed cell: arbitrary index 0..511 */
-int64_t g_cell_t, g_cell_i; /* content of values[g_k] in the pre-state */
 int64_t g_top_t, g_top_i;   /* innermost open region in the pre-state (null value when n==0) */
 int g_dirty;                /* is_dirty in the pre-state */
 int g_legal;                /* legality predicate of the operation in the pre-state */
@@ -57,14 +83,12 @@ int g_cb_runs;              /* the dirty callback will be called by an accepted 
 int g_clean;                /* channel is flushed: !dirty and last_value == visible value */
 int g_same_as_top;          /* the new value equals the innermost open region */
 
-#define OBSERVE(c) ( g_k >= 0 && g_k < MAX_CHAN_STACK && \
-	g_cell_t == spec_cell_t(c, g_k) && g_cell_i == spec_cell_i(c, g_k) )
 /* top of the stack, or the null value when nothing is open (what chan_read shows) */
-#define BIND_TOP(c) ( g_n == spec_n(c) && \
-	(((c)->type == CHAN_STACK && g_n > 0) \
-		? (g_top_t == spec_cell_t(c, (g_n > 0 && g_n <= MAX_CHAN_STACK) ? g_n - 1 : 0) && \
-		   g_top_i == spec_cell_i(c, (g_n > 0 && g_n <= MAX_CHAN_STACK) ? g_n - 1 : 0)) \
-		: (g_top_t == VALUE_NULL && g_top_i == 0)) )
+#define BIND_TOP_(c, IS) ( g_n == spec_n(c) && \
+	(((c)->type == CHAN_STACK && spec_n(c) > 0 && IS(c, g_top_t, g_top_i)) || \
+	 (!((c)->type == CHAN_STACK && spec_n(c) > 0) && g_top_t == VALUE_NULL && g_top_i == 0)) )
+#define BIND_TOP(c) BIND_TOP_(c, spec_top_is)
+#define BIND_TOP_F(c) BIND_TOP_(c, spec_topf_is)
 #define DUP_OF_LAST(c, v) (spec_last_t(c) == (v).type && spec_last_i(c) == (v).i)
 #define WRITABLE(c) (!((c)->is_dirty && !(c)->prop[CHAN_DIRTY_WRITE]))
 
@@ -87,13 +111,15 @@ WITNESS(chan_push);
 int c_chan_push(struct chan *chan, struct value value)
 __CPROVER_requires(CHAN_OBJ(chan) && CHAN_WF(chan) && CB_SHAPE(chan))
 __CPROVER_requires(WBIND(chan_push, WITNESS_CHAN(chan) && w_vt == value.type && w_vi == value.i) && DIAG_PRE)
-__CPROVER_requires(BIND_TOP(chan) && OBSERVE(chan) && g_dirty == chan->is_dirty && g_cb_calls < 1000u)
+__CPROVER_requires(BIND_TOP(chan) && g_dirty == chan->is_dirty && g_cb_calls < 1000u)
 __CPROVER_requires(g_ignored == (chan->type == CHAN_STACK && WRITABLE(chan) && PUSH_DUP_IGNORED(chan, value)))
 __CPROVER_requires(g_cb_runs == (!chan->is_dirty && chan->dirty_cb != NULL))
 __CPROVER_requires(g_legal == (chan->type == CHAN_STACK && WRITABLE(chan) && !PUSH_DUP_REFUSED(chan, value) &&
 	(PUSH_DUP_IGNORED(chan, value) || (g_n < MAX_CHAN_STACK && (!g_cb_runs || g_cb_ret == 0)))))
 __CPROVER_requires(g_clean == (!chan->is_dirty && spec_last_t(chan) == g_top_t && spec_last_i(chan) == g_top_i))
 __CPROVER_requires(g_same_as_top == (value.type == g_top_t && value.i == g_top_i))
+/* write frame: depth, dirty flag and the ONE cell above the old top; every
+ * other cell, last_value, the flags, the type and the name are not assignable */
 __CPROVER_assigns(chan->is_dirty, chan->data.stack.n, DIAG_FRAME, g_cb_calls, g_cb_chan)
 __CPROVER_assigns(chan->type == CHAN_STACK && chan->data.stack.n >= 0 && chan->data.stack.n < MAX_CHAN_STACK:
 	chan->data.stack.values[chan->data.stack.n])
@@ -109,19 +135,17 @@ __CPROVER_ensures(!g_clean || ((__CPROVER_return_value == 0) ==
 	 (!g_same_as_top || chan->prop[CHAN_ALLOW_DUP] || chan->prop[CHAN_IGNORE_DUP]) &&
 	 ((g_same_as_top && !chan->prop[CHAN_ALLOW_DUP] && chan->prop[CHAN_IGNORE_DUP]) ||
 	  (g_n < MAX_CHAN_STACK && (!g_cb_runs || g_cb_ret == 0))))))
-/* effect of an accepted push: stack' = stack . value, dirty, every other cell unchanged */
+/* effect of an accepted push: stack' = stack . value (new top is the value), dirty */
 __CPROVER_ensures(__CPROVER_return_value != 0 || g_ignored || (
-	spec_n(chan) == g_n + 1 && chan->is_dirty == 1 &&
-	spec_cell_t(chan, g_n) == value.type && spec_cell_i(chan, g_n) == value.i &&
-	(g_k == g_n || (spec_cell_t(chan, g_k) == g_cell_t && spec_cell_i(chan, g_k) == g_cell_i))))
+	spec_n(chan) == g_n + 1 && chan->is_dirty != 0 &&
+	spec_cell_is(chan, g_n, value.type, value.i)))
 /* PINNED: a duplicate on an IGNORE_DUP channel returns 0 WITHOUT pushing */
 __CPROVER_ensures(!g_ignored || (__CPROVER_return_value == 0 && spec_n(chan) == g_n && chan->is_dirty == g_dirty &&
-	spec_cell_t(chan, g_k) == g_cell_t && spec_cell_i(chan, g_k) == g_cell_i && g_cb_calls == __CPROVER_old(g_cb_calls)))
-/* refused (for a reason other than the callback): nothing changed, diagnostic issued */
+	g_cb_calls == __CPROVER_old(g_cb_calls)))
+/* refused: diagnostic issued; refused for a reason other than the callback: nothing changed */
 __CPROVER_ensures(__CPROVER_return_value == 0 || (g_err > __CPROVER_old(g_err)))
 __CPROVER_ensures(__CPROVER_return_value == 0 || g_cb_calls != __CPROVER_old(g_cb_calls) || (
-	spec_n(chan) == g_n && chan->is_dirty == g_dirty &&
-	spec_cell_t(chan, g_k) == g_cell_t && spec_cell_i(chan, g_k) == g_cell_i))
+	spec_n(chan) == g_n && chan->is_dirty == g_dirty))
 /* the callback runs exactly on the clean -> dirty edge of a real modification */
 __CPROVER_ensures((g_cb_calls != __CPROVER_old(g_cb_calls)) ==
 	(g_cb_runs && !g_ignored && chan->type == CHAN_STACK && !PUSH_DUP_REFUSED(chan, value) && g_n < MAX_CHAN_STACK))
@@ -130,8 +154,8 @@ __CPROVER_ensures(CHAN_WF(chan))
 
 void h_chan_push(void)
 {
-	struct chan *chan = new_chan();
-	struct value value;
+	NEW_CHAN(chan);
+	NEW_VALUE(value);
 	chan_cb_t cb = stub_dirty_cb; (void) cb;
 	WITNESS_ON(chan_push);
 	int r = chan_push(chan, value);
@@ -154,18 +178,18 @@ int c_chan_pop(struct chan *chan, struct value evalue)
 __CPROVER_requires(CHAN_OBJ(chan) && CHAN_WF(chan) && CB_SHAPE(chan))
 __CPROVER_requires(WBIND(chan_pop, WITNESS_CHAN(chan) && w_vt == evalue.type && w_vi == evalue.i &&
 	w_top_t == g_top_t && w_top_i == g_top_i) && DIAG_PRE)
-__CPROVER_requires(BIND_TOP(chan) && OBSERVE(chan) && g_dirty == chan->is_dirty && g_cb_calls < 1000u)
+__CPROVER_requires(BIND_TOP_F(chan) && g_dirty == chan->is_dirty && g_cb_calls < 1000u)
 __CPROVER_requires(g_cb_runs == (!chan->is_dirty && chan->dirty_cb != NULL))
 /* a leave event must match the most recent unmatched enter event */
 __CPROVER_requires(g_legal == (chan->type == CHAN_STACK && WRITABLE(chan) && g_n > 0 &&
 	g_top_t == evalue.type && g_top_i == evalue.i && (!g_cb_runs || g_cb_ret == 0)))
+/* write frame: depth and dirty flag only -- no cell of the stack is assignable,
+ * so everything below the closed region is unchanged */
 __CPROVER_assigns(chan->is_dirty, chan->data.stack.n, DIAG_FRAME, g_cb_calls, g_cb_chan)
 __CPROVER_ensures((__CPROVER_return_value == 0) == (g_legal != 0))
 __CPROVER_ensures(__CPROVER_return_value == 0 || __CPROVER_return_value == -1)
-/* effect: the innermost region is closed, everything below is unchanged
- * (no cell is in the write frame), channel dirty */
-__CPROVER_ensures(__CPROVER_return_value != 0 || (spec_n(chan) == g_n - 1 && chan->is_dirty == 1 &&
-	spec_cell_t(chan, g_k) == g_cell_t && spec_cell_i(chan, g_k) == g_cell_i))
+/* effect: the innermost region is closed, channel dirty */
+__CPROVER_ensures(__CPROVER_return_value != 0 || (spec_n(chan) == g_n - 1 && chan->is_dirty != 0))
 __CPROVER_ensures(__CPROVER_return_value == 0 || g_err > __CPROVER_old(g_err))
 __CPROVER_ensures(__CPROVER_return_value == 0 || g_cb_calls != __CPROVER_old(g_cb_calls) ||
 	(spec_n(chan) == g_n && chan->is_dirty == g_dirty))
@@ -176,8 +200,8 @@ __CPROVER_ensures(CHAN_WF(chan))
 
 void h_chan_pop(void)
 {
-	struct chan *chan = new_chan();
-	struct value evalue;
+	NEW_CHAN(chan);
+	NEW_VALUE(evalue);
 	chan_cb_t cb = stub_dirty_cb; (void) cb;
 	WITNESS_ON(chan_pop);
 	int r = chan_pop(chan, evalue);
@@ -210,7 +234,7 @@ __CPROVER_ensures(chan->type != CHAN_SINGLE || (value->type == g_single_t && val
 
 void h_chan_read(void)
 {
-	struct chan *chan = new_chan();
+	NEW_CHAN(chan);
 	struct value *value;
 	WITNESS_ON(chan_read);
 	int r = chan_read(chan, value);
@@ -235,7 +259,7 @@ __CPROVER_assigns(chan->is_dirty, chan->data.value, DIAG_FRAME, g_cb_calls, g_cb
 __CPROVER_ensures((__CPROVER_return_value == 0) == (g_legal != 0))
 __CPROVER_ensures(__CPROVER_return_value == 0 || __CPROVER_return_value == -1)
 __CPROVER_ensures(__CPROVER_return_value != 0 || g_ignored ||
-	(spec_single_t(chan) == value.type && spec_single_i(chan) == value.i && chan->is_dirty == 1))
+	(spec_single_t(chan) == value.type && spec_single_i(chan) == value.i && chan->is_dirty != 0))
 __CPROVER_ensures(!g_ignored || (__CPROVER_return_value == 0 && chan->is_dirty == g_dirty &&
 	spec_single_t(chan) == g_single_t && spec_single_i(chan) == g_single_i))
 __CPROVER_ensures(__CPROVER_return_value == 0 || g_err > __CPROVER_old(g_err))
@@ -245,8 +269,8 @@ __CPROVER_ensures(__CPROVER_return_value == 0 || g_cb_calls != __CPROVER_old(g_c
 
 void h_chan_set(void)
 {
-	struct chan *chan = new_chan();
-	struct value value;
+	NEW_CHAN(chan);
+	NEW_VALUE(value);
 	chan_cb_t cb = stub_dirty_cb; (void) cb;
 	WITNESS_ON(chan_set);
 	int r = chan_set(chan, value);
@@ -278,7 +302,7 @@ __CPROVER_ensures(__CPROVER_return_value == 0 || (chan->is_dirty == 0 && g_err >
 
 void h_chan_flush(void)
 {
-	struct chan *chan = new_chan();
+	NEW_CHAN(chan);
 	WITNESS_ON(chan_flush);
 	int r = chan_flush(chan);
 	if (r == 0 && w_type == CHAN_STACK && w_n > 0) REACH("flush of a non-empty stack");
